@@ -6,3 +6,6 @@ import WcModel.Properties.C05
 #print axioms WcModel.C05.D17_witness
 #print axioms WcModel.C05.D17_dirfd_witness
 #print axioms WcModel.C05.G2_witness
+#print axioms WcModel.C05.C05_partial
+#print axioms WcModel.C05.C05_partial_results
+#print axioms WcModel.C05.star_is_below
